@@ -1,5 +1,6 @@
 (** C13 — proofs about Model/Cors.v. *)
 From Coq Require Import ZifyBool ZifyNat ZifyN Lia.
+From KV Require PathSan PathSanProofs.
 From KV Require Import Bytes RustInt Cache Fixture RuleSet RuleSetProofs Cors.
 Open Scope N_scope.
 
@@ -69,15 +70,17 @@ Proof. intros H; induction l as [|x r IH]; cbn [existsb]; [reflexivity|]. rewrit
 
 (** ---- the code's check is the property's decision function ---- *)
 
-Lemma check_is_spec parse get m s a p o : mem_byte c_colon s = false ->
-  check_cors_request parse is_part_of_origin get m (Some s) (Some a) p o
-  = verdict_grant (cors_spec parse get m s a p o).
+(** one path: the code's inner check and [cors_spec] for an origin that is not the request's own *)
+Lemma spec_one_path parse get m s a p o ou :
+  to_str_ok o && beq o (s ++ B "://" ++ a) = false -> parse o = Some ou ->
+  cors_spec parse get m s a p (Some o)
+  = match (match get p with Some cal => al_check cal ou | None => None end) with
+    | Some allowed => if method_allowed (fst (fst allowed)) m then VAllow allowed else VRefuse
+    | None => VRefuse
+    end.
 Proof.
-  intros Hs. unfold check_cors_request, cors_spec. destruct o as [o|]; [|reflexivity].
-  rewrite (ipo_literal o s a Hs).
-  destruct (to_str_ok o && beq o (s ++ B "://" ++ a)); [reflexivity|].
-  destruct (get p) as [al|]; [|destruct (parse o); reflexivity].
-  destruct (parse o) as [ou|]; [|reflexivity].
+  intros Hn Hp. unfold cors_spec. rewrite Hn, Hp.
+  destruct (get p) as [al|]; [|reflexivity].
   unfold al_check, al_grant.
   rewrite (existsb_pointwise (fun allowed => origin_matches allowed ou)
              (fun a0 => opt_beq (Some (ao_scheme a0)) (u_scheme ou) && opt_beq (Some (ao_host a0)) (u_host ou)
@@ -89,6 +92,71 @@ Proof.
   - unfold method_allowed. destruct (al_methods al) as [l|]; [destruct (mem_N m l)|]; reflexivity.
   - destruct (existsb _ (al_allowed al)); cbn [andb fst]; [|reflexivity].
     unfold method_allowed. destruct (al_methods al) as [l|]; [destruct (mem_N m l)|]; reflexivity.
+Qed.
+
+Lemma check_is_spec parse norm get m s a p o : mem_byte c_colon s = false ->
+  check_cors_request parse is_part_of_origin norm get m (Some s) (Some a) p o
+  = verdict_grant (cors_spec2 norm parse get m s a p o).
+Proof.
+  intros Hs. unfold check_cors_request, cors_spec2. destruct o as [o|]; [|reflexivity].
+  rewrite (ipo_literal o s a Hs).
+  destruct (to_str_ok o && beq o (s ++ B "://" ++ a)) eqn:Hn.
+  - unfold cors_spec. rewrite Hn. reflexivity.
+  - destruct (parse o) as [ou|] eqn:Hp.
+    2:{ unfold cors_spec. rewrite Hn, Hp. destruct (get p); reflexivity. }
+    rewrite (spec_one_path parse get m s a p o ou Hn Hp), (spec_one_path parse get m s a (norm p) o ou Hn Hp).
+    destruct (beq (norm p) p); cbn [negb andb].
+    + destruct (match get p with Some cal => al_check cal ou | None => None end) as [al1|]; [|reflexivity].
+      destruct (method_allowed (fst (fst al1)) m); reflexivity.
+    + destruct (match get (norm p) with Some cal => al_check cal ou | None => None end) as [al2|].
+      * destruct (method_allowed (fst (fst al2)) m).
+        -- destruct (match get p with Some cal => al_check cal ou | None => None end) as [al1|]; [|reflexivity].
+           destruct (method_allowed (fst (fst al1)) m); reflexivity.
+        -- destruct (match get p with Some cal => al_check cal ou | None => None end) as [al1|]; [|reflexivity].
+           destruct (method_allowed (fst (fst al1)) m); reflexivity.
+      * destruct (match get p with Some cal => al_check cal ou | None => None end) as [al1|]; [|reflexivity].
+        destruct (method_allowed (fst (fst al1)) m); reflexivity.
+Qed.
+
+(** a request that is let through is allowed by the rule of the path as requested and by the rule of the
+    path the file system resolves it to *)
+Lemma spec2_both norm parse get m s a p o :
+  cors_spec2 norm parse get m s a p o <> VRefuse ->
+  cors_spec parse get m s a p o <> VRefuse /\ cors_spec parse get m s a (norm p) o <> VRefuse.
+Proof.
+  unfold cors_spec2. intros H.
+  destruct (cors_spec parse get m s a p o) as [|g|] eqn:E1.
+  - split; [discriminate|]. unfold cors_spec in *. destruct o as [o|]; [|discriminate].
+    destruct (to_str_ok o && beq o (s ++ B "://" ++ a)); [discriminate|].
+    destruct (get p), (parse o); try discriminate. destruct (_ && _) in E1; discriminate.
+  - split; [discriminate|]. destruct (beq (norm p) p) eqn:Eb.
+    + apply beq_eq in Eb. rewrite Eb, E1. discriminate.
+    + destruct (cors_spec parse get m s a (norm p) o); [discriminate|discriminate|congruence].
+  - congruence.
+Qed.
+
+(** ... and the file a request path designates lies at the resolved path *)
+Lemma find_file_key rel files p c : find_file rel files = Some (p, c) -> p = rel.
+Proof.
+  induction files as [|[q d] r IH]; cbn [find_file]; [discriminate|].
+  destruct (beq q rel) eqn:E; [|exact IH]. intros H; inversion H; subst. apply beq_eq in E. exact E.
+Qed.
+Lemma fs_find_resolved files p rel content :
+  fs_find files p = Some (rel, content) -> resolved_path p = c_slash :: rel.
+Proof.
+  unfold fs_find, resolved_path, PathSan.util_percent_decode, PathSan.decoded_for_use.
+  destruct (PathSan.utf8_valid (PathSan.percent_decode p)); [|discriminate].
+  destruct (mem_byte 0 (PathSan.percent_decode p)); [discriminate|].
+  destruct (collapse_slashes (PathSan.percent_decode p) false) as [|c r]; [discriminate|].
+  destruct (c =? c_slash) eqn:E; [|discriminate]. apply N.eqb_eq in E. subst c.
+  intros H. apply find_file_key in H. subst. reflexivity.
+Qed.
+Lemma served_file_rule parse get m s a p o files rel content :
+  fs_find files p = Some (rel, content) ->
+  cors_spec2 resolved_path parse get m s a p o <> VRefuse ->
+  cors_spec parse get m s a (c_slash :: rel) o <> VRefuse.
+Proof.
+  intros Hf Hv. apply spec2_both in Hv as [_ Hv]. rewrite (fs_find_resolved files p rel content Hf) in Hv. exact Hv.
 Qed.
 
 (** ---- internal routes and [uri_redirect] ---- *)
@@ -126,34 +194,40 @@ Proof.
   destruct (c =? 46); [repeat split|]. destruct (c =? 47); repeat split.
 Qed.
 
-Lemma path_ok_external p : path_part_ok p = true -> starts_with (B "/./") p = false.
+Lemma no_dot_slash_external p : contains_sub (B "./") p = false -> starts_with (B "/./") p = false.
 Proof.
-  unfold path_part_ok. intros H. apply andb_true_iff in H as [H _]. apply andb_true_iff in H as [H _].
-  apply negb_true_iff in H. destruct (starts_with (B "/./") p) eqn:E; [|reflexivity].
-  apply internal_contains in E. congruence.
+  intros H. destruct (starts_with (B "/./") p) eqn:E; [|reflexivity]. apply internal_contains in E. congruence.
 Qed.
 
-Lemma uri_redirect_external r : path_part_ok (rq_path r) = true -> starts_with (B "/./") (rq_path (uri_redirect r)) = false.
+Lemma uri_redirect_external r : contains_sub (B "./") (rq_path r) = false -> starts_with (B "/./") (rq_path (uri_redirect r)) = false.
 Proof.
-  intros H. pose proof (path_ok_external _ H) as He.
-  assert (contains_sub (B "./") (rq_path r) = false) as Hc.
-  { unfold path_part_ok in H. apply andb_true_iff in H as [H _]. apply andb_true_iff in H as [H _].
-    apply negb_true_iff in H. exact H. }
+  intros Hc. pose proof (no_dot_slash_external _ Hc) as He.
   unfold uri_redirect. destruct (rev (rq_path r)) as [|c l]; [exact He|].
   destruct (c =? 46); [cbn [rq_path]; apply internal_app; [exact Hc|reflexivity..]|].
   destruct (c =? 47); [cbn [rq_path]; apply internal_app; [exact Hc|reflexivity..]|exact He].
 Qed.
 
-Lemma sanitize_path r : sanitize_ok_fix r = true -> path_part_ok (rq_path r) = true.
-Proof. unfold sanitize_ok_fix. intros H. apply andb_true_iff in H as [H _]. exact H. Qed.
+(** a path that passes [sanitize_request] (tested on the percent-decoded path) has no "./" as spelled either *)
+Lemma sanitize_path r : sanitize_ok_pct r = true -> contains_sub (B "./") (rq_path r) = false.
+Proof.
+  unfold sanitize_ok_pct. intros H. apply andb_true_iff in H as [H _].
+  destruct (PathSan.sanitize_path (rq_path r)) as [[]| |] eqn:E; try discriminate.
+  destruct (PathSanProofs.internal_routes_lemma _ E) as [Hn _].
+  destruct (contains_sub (B "./") (rq_path r)) eqn:C; [|reflexivity]. exfalso. apply Hn.
+  apply PathSanProofs.has_dot_slash_iff. rewrite PathSanProofs.has_dot_slash_b_contains. exact C.
+Qed.
 
 (** ---- the prime chain ---- *)
 Section Primes.
   Variable parse : bytes -> option uparts.
+  Variable norm : bytes -> bytes.
+  Variable denied_sp : N.
+  Variable filt : N -> bool.
   Variable conn_scheme : bytes.
   Variable cfg : ccfg.
   Hypothesis Hscheme : mem_byte c_colon conn_scheme = false.
   Notation ipo := is_part_of_origin.
+  Notation verdict_of := (req_verdict parse norm conn_scheme cfg).
 
   Definition gate_id : prime_id := if cc_with_cors cfg then P_with_cors else P_deny.
   Lemma prime_list_shape :
@@ -163,52 +237,69 @@ Section Primes.
 
   Definition ov_of (r : request) : option bytes :=
     if pf_shape r then Some OV_OPTIONS
-    else match req_verdict parse conn_scheme cfg r with VRefuse => Some OV_FAIL | _ => None end.
+    else match verdict_of r with VRefuse => Some OV_FAIL | _ => None end.
+  (** the requested path is kept when [uri_redirect] rewrites the URI *)
+  Definition orig_of (r : request) : option bytes :=
+    if cc_new cfg then (if beq (rq_path (uri_redirect r)) (rq_path r) then None else Some (rq_path r)) else None.
 
-  Lemma req_check_spec r a : header H_HOST r = Some a ->
-    req_check parse ipo conn_scheme (effective_rules cfg) r = verdict_grant (req_verdict parse conn_scheme cfg r).
+  (** the check on the requested path, with any request that has the same method and headers *)
+  Lemma req_check_spec r r' a : header H_HOST r = Some a ->
+    rq_method r' = rq_method r -> rq_headers r' = rq_headers r ->
+    req_check parse ipo norm conn_scheme (effective_rules cfg) (rq_path r) r' = verdict_grant (verdict_of r).
   Proof.
-    intros Ha. unfold req_check, req_verdict. rewrite Ha. apply check_is_spec. exact Hscheme.
+    intros Ha Hm Hh. unfold req_check, req_verdict, header. rewrite Hm, Hh. fold (header H_HOST r). fold (header H_ORIGIN r).
+    rewrite Ha. apply check_is_spec. exact Hscheme.
   Qed.
 
   Lemma call_gate r a : header H_HOST r = Some a ->
-    call_prime parse ipo conn_scheme cfg gate_id r
-    = match req_verdict parse conn_scheme cfg r with VRefuse => Some (OV_FAIL, None) | _ => None end.
+    call_prime parse ipo norm true conn_scheme cfg gate_id None r
+    = match verdict_of r with VRefuse => Some (OV_FAIL, None) | _ => None end.
   Proof.
     intros Ha. unfold gate_id. destruct (cc_with_cors cfg) eqn:W.
-    - cbn [call_prime]. pose proof (req_check_spec r a Ha) as H. unfold effective_rules in H. rewrite W in H.
-      rewrite H. destruct (req_verdict parse conn_scheme cfg r); reflexivity.
-    - cbn [call_prime]. unfold req_verdict, effective_rules, cors_spec. rewrite W, Ha.
+    - cbn [call_prime cors_path]. pose proof (req_check_spec r r a Ha eq_refl eq_refl) as H. unfold effective_rules in H. rewrite W in H.
+      rewrite H. destruct (verdict_of r); reflexivity.
+    - cbn [call_prime]. unfold req_verdict, effective_rules, cors_spec2, cors_spec. rewrite W, Ha.
       destruct (header H_ORIGIN r) as [o|]; [|reflexivity].
       rewrite (ipo_literal o conn_scheme a Hscheme).
       destruct (to_str_ok o); cbn [andb].
-      + destruct (beq o (conn_scheme ++ B "://" ++ a)); reflexivity.
-      + reflexivity.
+      + destruct (beq o (conn_scheme ++ B "://" ++ a)); [reflexivity|]. cbn [rs_get]. destruct (parse o); reflexivity.
+      + cbn [rs_get]. destruct (parse o); reflexivity.
   Qed.
 
-  Lemma call_options r :
-    call_prime parse ipo conn_scheme cfg P_options r = if pf_shape r then Some (OV_OPTIONS, None) else None.
+  Lemma call_options orig r :
+    call_prime parse ipo norm true conn_scheme cfg P_options orig r = if pf_shape r then Some (OV_OPTIONS, None) else None.
   Proof. reflexivity. Qed.
 
-  Lemma resolve_prime_eq r0 a :
-    header H_HOST r0 = Some a -> sanitize_ok_fix r0 = true ->
-    resolve_prime parse ipo conn_scheme cfg (prime_list cfg) r0 None = (rw cfg r0, ov_of r0).
+  Lemma resolve_tail r0 u : contains_sub (B "./") (rq_path r0) = false ->
+    resolve_prime parse ipo norm true conn_scheme cfg (if cc_new cfg then [((-100)%Z, P_uri_redirect)] else []) r0 u None
+    = (rw cfg r0, u, orig_of r0).
   Proof.
-    intros Ha Hs. rewrite prime_list_shape. cbn [resolve_prime].
+    intros Hs. unfold rw, orig_of. destruct (cc_new cfg); [|reflexivity].
+    cbn [resolve_prime call_prime].
+    destruct (beq (rq_path (uri_redirect r0)) (rq_path r0)) eqn:E.
+    - f_equal. f_equal. apply beq_eq in E. destruct (uri_redirect_fields r0) as (Hm & Hq & Hh & Had).
+      destruct r0 as [m p q h ad], (uri_redirect (mkReq m p q h ad)) as [m' p' q' h' ad'] eqn:U; cbn in *; subst; reflexivity.
+    - rewrite (uri_redirect_external r0 Hs).
+      destruct (uri_redirect_fields r0) as (Hm & Hq & Hh & Had).
+      f_equal. f_equal. destruct (uri_redirect r0) as [m' p' q' h' ad'] eqn:U; cbn in *; subst; reflexivity.
+  Qed.
+
+  Lemma resolve_prime_eq r0 a :
+    header H_HOST r0 = Some a -> sanitize_ok_pct r0 = true ->
+    primed parse ipo norm true conn_scheme cfg r0 = (rw cfg r0, ov_of r0, orig_of r0).
+  Proof.
+    intros Ha Hs. unfold primed. rewrite prime_list_shape. cbn [resolve_prime].
     rewrite (call_gate r0 a Ha), call_options. unfold ov_of.
-    assert (forall u, resolve_prime parse ipo conn_scheme cfg
-                        (if cc_new cfg then [((-100)%Z, P_uri_redirect)] else []) r0 u = (rw cfg r0, u)) as Hlast.
-    { intros u. unfold rw. destruct (cc_new cfg); [|reflexivity].
-      cbn [resolve_prime call_prime].
-      destruct (beq (rq_path (uri_redirect r0)) (rq_path r0)) eqn:E.
-      - f_equal. apply beq_eq in E. destruct (uri_redirect_fields r0) as (Hm & Hq & Hh & Had).
-        destruct r0 as [m p q h ad], (uri_redirect (mkReq m p q h ad)) as [m' p' q' h' ad'] eqn:U; cbn in *; subst; reflexivity.
-      - rewrite (uri_redirect_external r0 (sanitize_path r0 Hs)).
-        destruct (uri_redirect_fields r0) as (Hm & Hq & Hh & Had).
-        f_equal. destruct (uri_redirect r0) as [m' p' q' h' ad'] eqn:U; cbn in *; subst; reflexivity. }
-    destruct (req_verdict parse conn_scheme cfg r0); destruct (pf_shape r0);
+    destruct (verdict_of r0); destruct (pf_shape r0);
       repeat (change (starts_with (B "/./") OV_FAIL) with true; change (starts_with (B "/./") OV_OPTIONS) with true; cbv iota);
-      apply Hlast.
+      apply resolve_tail, sanitize_path, Hs.
+  Qed.
+
+  (** the path the CORS rules are looked up with is the requested one *)
+  Lemma cors_path_orig r0 : cors_path true (orig_of r0) (rw cfg r0) = rq_path r0.
+  Proof.
+    unfold cors_path, orig_of, rw. destruct (cc_new cfg); [|reflexivity].
+    destruct (beq (rq_path (uri_redirect r0)) (rq_path r0)) eqn:E; [apply beq_eq in E; exact E|reflexivity].
   Qed.
 End Primes.
 
@@ -246,20 +337,22 @@ Proof.
   - apply IH; [|exact Hu]. intros p sp' Hin. apply (Hh p sp'). right. exact Hin.
 Qed.
 
-Lemma wants_cache_denied b m : wants_cache b m denied_fat = false.
+(** the refusal and the preflight response are never let into the cache, whatever the status filter *)
+Lemma wants_cache_denied filt b m : wants_cache_f filt b m denied_fat = false.
 Proof.
-  unfold wants_cache. change (negb (status_filter_drop (f_status denied_fat))) with false.
+  unfold wants_cache_f. change (pref_caches (f_spref denied_fat)) with false.
   rewrite andb_false_r. reflexivity.
 Qed.
-Lemma wants_cache_options b m g : wants_cache b m (options_fat g) = false.
+Lemma wants_cache_options filt b m g : wants_cache_f filt b m (options_fat g) = false.
 Proof.
   destruct g as [[[ms hs] t]|]; [|apply wants_cache_denied].
-  unfold wants_cache. cbn [options_fat f_spref]. change (pref_caches SP_NONE) with false.
+  unfold wants_cache_f. change (pref_caches (f_spref (options_fat (Some (ms, hs, t))))) with false.
   rewrite andb_false_r. reflexivity.
 Qed.
 
 Section Main.
   Variable parse : bytes -> option uparts.
+  Variable filt : N -> bool.
   Variable conn_scheme : bytes.
   Variable cfg : ccfg.
   Variable app : app_handlers.
@@ -267,32 +360,34 @@ Section Main.
   Hypothesis Hext : app_external app.
   Hypothesis Hign : app_ignores_origin app.
   Notation ipo := is_part_of_origin.
-  Notation verdict_of := (req_verdict parse conn_scheme cfg).
-  Notation respond' := (respond parse ipo conn_scheme cfg app).
+  Notation norm := resolved_path.
+  Notation verdict_of := (req_verdict parse norm conn_scheme cfg).
+  Notation respond' := (respond parse ipo norm true SP_NONE filt conn_scheme cfg app).
+  Notation compute' := (compute_ov parse ipo norm SP_NONE conn_scheme cfg app).
+  Notation serve_core' := (serve_core parse ipo norm SP_NONE filt conn_scheme cfg app).
 
-  Lemma compute_fail r :
-    compute_ov parse ipo conn_scheme cfg app tt r (Some OV_FAIL) true = (denied_fat, tt, []).
+  Lemma compute_fail cp r : compute' cp tt r (Some OV_FAIL) true = (denied_fat, tt, []).
   Proof.
     unfold compute_ov. cbn [negb]. rewrite (Hext OV_FAIL r eq_refl). reflexivity.
   Qed.
-  Lemma compute_options r :
-    compute_ov parse ipo conn_scheme cfg app tt r (Some OV_OPTIONS) true
-    = (options_fat (req_check parse ipo conn_scheme (effective_rules cfg) r), tt, []).
+  Lemma compute_options cp r :
+    compute' cp tt r (Some OV_OPTIONS) true
+    = (options_fat (req_check parse ipo norm conn_scheme (effective_rules cfg) cp r), tt, []).
   Proof.
     unfold compute_ov. cbn [negb]. rewrite (Hext OV_OPTIONS r eq_refl). reflexivity.
   Qed.
 
-  Lemma serve_core_internal c now r u f lg :
+  Lemma serve_core_internal cp c now r u f lg :
     no_internal c -> starts_with (B "/./") u = true ->
-    compute_ov parse ipo conn_scheme cfg app tt r (Some u) true = (f, tt, lg) ->
-    wants_cache (cc_cache cfg) (rq_method r) f = false ->
-    serve_core parse ipo conn_scheme cfg app (c, tt) now true r (Some u)
+    compute' cp tt r (Some u) true = (f, tt, lg) ->
+    wants_cache_f filt (cc_cache cfg) (rq_method r) f = false ->
+    serve_core' cp (c, tt) now true r (Some u)
     = ((c, tt), {| rp_status := f_status f; rp_headers := f_headers f; rp_body := f_body f; rp_identity := f_body f;
                    rp_last_modified := false; rp_from_cache := false |}, lg).
   Proof.
     intros Hc Hu Hcomp Hw. unfold serve_core. destruct (cc_cache cfg) eqn:C; cbn [negb].
-    - rewrite (lookup_internal c now r u Hc Hu). unfold miss. rewrite Hcomp.
-      unfold may_store. rewrite Hw. cbn [andb]. unfold finish, no_negotiate, no_vary_header. rewrite app_nil_r. reflexivity.
+    - rewrite (lookup_internal c now r u Hc Hu). unfold miss_f. rewrite Hcomp.
+      unfold may_store_f. rewrite ?C. rewrite Hw. cbn [andb]. unfold finish, no_negotiate, no_vary_header. rewrite app_nil_r. reflexivity.
     - rewrite Hcomp. unfold finish, no_negotiate, no_vary_header. rewrite app_nil_r. reflexivity.
   Qed.
 
@@ -304,16 +399,17 @@ Section Main.
   Lemma rw_header n r : header n (rw cfg r) = header n r.
   Proof. unfold header. destruct (rw_fields r) as [_ H]. rewrite H. reflexivity. Qed.
 
-  Lemma req_check_rw r : stable cfg r ->
-    req_check parse ipo conn_scheme (effective_rules cfg) (rw cfg r) = req_check parse ipo conn_scheme (effective_rules cfg) r.
+  (** the check the Package and the preflight Prepare make (on the rewritten request, with the requested path) *)
+  Lemma req_check_rw r a : header H_HOST r = Some a ->
+    req_check parse ipo norm conn_scheme (effective_rules cfg) (rq_path r) (rw cfg r) = verdict_grant (verdict_of r).
   Proof.
-    intros Hst. unfold req_check, check_cors_request. rewrite !rw_header. destruct (rw_fields r) as [Hm _]. rewrite Hm.
-    unfold stable in Hst. rewrite Hst. reflexivity.
+    intros Ha. destruct (rw_fields r) as [Hm Hh].
+    apply (req_check_spec parse norm conn_scheme cfg Hscheme r (rw cfg r) a Ha Hm Hh).
   Qed.
 
   (** what the Package does, in terms of the verdict *)
-  Lemma package_stable r0 a hs : header H_HOST r0 = Some a -> stable cfg r0 ->
-    cors_package parse ipo conn_scheme cfg (rw cfg r0) hs
+  Lemma package_eq r0 a hs : header H_HOST r0 = Some a ->
+    cors_package parse ipo norm conn_scheme cfg (rq_path r0) (rw cfg r0) hs
     = if cc_with_cors cfg then
         match header H_ORIGIN r0 with
         | Some o => match verdict_of r0 with VRefuse => hs | _ => set_header H_ACAO o hs end
@@ -321,50 +417,50 @@ Section Main.
         end
       else hs.
   Proof.
-    intros Ha Hst. unfold cors_package. destruct (cc_with_cors cfg) eqn:W; [|reflexivity].
+    intros Ha. unfold cors_package. destruct (cc_with_cors cfg) eqn:W; [|reflexivity].
     rewrite rw_header. destruct (header H_ORIGIN r0) as [o|]; [|reflexivity].
-    pose proof (req_check_rw r0 Hst) as H1. pose proof (req_check_spec parse conn_scheme cfg Hscheme r0 a Ha) as H2.
-    unfold effective_rules in H1, H2. rewrite W in H1, H2. rewrite H1, H2.
+    pose proof (req_check_rw r0 a Ha) as H1.
+    unfold effective_rules in H1. rewrite W in H1. rewrite H1.
     destruct (verdict_of r0); reflexivity.
   Qed.
 
   (** ---- refused: 403, no handler, no access-control-allow-origin, cache untouched — for every cache state ---- *)
   Lemma refused_reply c now r0 a :
-    header H_HOST r0 = Some a -> sanitize_ok_fix r0 = true -> no_internal c -> stable cfg r0 ->
+    header H_HOST r0 = Some a -> sanitize_ok_pct r0 = true -> no_internal c ->
     verdict_of r0 = VRefuse ->
     respond' (c, tt) now r0 = ((c, tt), mkWire 403 [] (if rq_method r0 =? M_HEAD then [] else DENIED) []).
   Proof.
-    intros Ha Hs Hc Hst Hv. unfold respond, serve_ov.
-    rewrite (resolve_prime_eq parse conn_scheme cfg Hscheme r0 a Ha Hs). cbn [fst]. rewrite Hs.
-    assert (exists u, ov_of parse conn_scheme cfg r0 = Some u /\ starts_with (B "/./") u = true /\
-                      compute_ov parse ipo conn_scheme cfg app tt (rw cfg r0) (Some u) true = (denied_fat, tt, [])) as (u & Hu & Hi & Hcomp).
+    intros Ha Hs Hc Hv. unfold respond, serve_ov.
+    rewrite (resolve_prime_eq parse norm conn_scheme cfg Hscheme r0 a Ha Hs). rewrite (cors_path_orig cfg r0). rewrite Hs.
+    assert (exists u, ov_of parse norm conn_scheme cfg r0 = Some u /\ starts_with (B "/./") u = true /\
+                      compute' (rq_path r0) tt (rw cfg r0) (Some u) true = (denied_fat, tt, [])) as (u & Hu & Hi & Hcomp).
     { unfold ov_of. rewrite Hv. destruct (pf_shape r0).
       - exists OV_OPTIONS. split; [reflexivity|]. split; [reflexivity|].
-        rewrite compute_options, (req_check_rw r0 Hst), (req_check_spec parse conn_scheme cfg Hscheme r0 a Ha), Hv. reflexivity.
+        rewrite compute_options, (req_check_rw r0 a Ha), Hv. reflexivity.
       - exists OV_FAIL. split; [reflexivity|]. split; [reflexivity|]. apply compute_fail. }
-    rewrite Hu. rewrite (serve_core_internal c now (rw cfg r0) u denied_fat [] Hc Hi Hcomp (wants_cache_denied _ _)).
-    cbn [rp_status rp_headers rp_body f_status f_headers f_body denied_fat].
-    rewrite (package_stable r0 a [] Ha Hst), Hv.
+    rewrite Hu. rewrite (serve_core_internal (rq_path r0) c now (rw cfg r0) u denied_fat [] Hc Hi Hcomp (wants_cache_denied _ _ _)).
+    cbn [rp_status rp_headers rp_body f_status f_headers f_body denied_fat denied_fat_sp].
+    rewrite (package_eq r0 a [] Ha), Hv.
     destruct (cc_with_cors cfg); [destruct (header H_ORIGIN r0)|]; reflexivity.
   Qed.
 
   (** ---- preflight: exactly the rule's methods, headers and max-age (rounded up), for every cache state ---- *)
   Lemma preflight_reply c now r0 a o ms hs t :
-    header H_HOST r0 = Some a -> sanitize_ok_fix r0 = true -> no_internal c -> stable cfg r0 ->
+    header H_HOST r0 = Some a -> sanitize_ok_pct r0 = true -> no_internal c ->
     pf_shape r0 = true -> header H_ORIGIN r0 = Some o ->
     verdict_grant (verdict_of r0) = Some (ms, hs, t) ->
     respond' (c, tt) now r0
     = ((c, tt), mkWire 204 (let h := [(H_ACAM, methods_bytes ms); (H_ACAH, join_comma hs); (H_ACMA, dec (max_age_secs t))] in
                             if cc_with_cors cfg then h ++ [(H_ACAO, o)] else h) [] []).
   Proof.
-    intros Ha Hs Hc Hst Hpf Ho Hv. unfold respond, serve_ov.
-    rewrite (resolve_prime_eq parse conn_scheme cfg Hscheme r0 a Ha Hs). cbn [fst]. rewrite Hs.
+    intros Ha Hs Hc Hpf Ho Hv. unfold respond, serve_ov.
+    rewrite (resolve_prime_eq parse norm conn_scheme cfg Hscheme r0 a Ha Hs). rewrite (cors_path_orig cfg r0). rewrite Hs.
     unfold ov_of. rewrite Hpf.
-    assert (compute_ov parse ipo conn_scheme cfg app tt (rw cfg r0) (Some OV_OPTIONS) true = (options_fat (Some (ms, hs, t)), tt, [])) as Hcomp.
-    { rewrite compute_options, (req_check_rw r0 Hst), (req_check_spec parse conn_scheme cfg Hscheme r0 a Ha), Hv. reflexivity. }
-    rewrite (serve_core_internal c now (rw cfg r0) OV_OPTIONS _ [] Hc eq_refl Hcomp (wants_cache_options _ _ _)).
-    cbn [rp_status rp_headers rp_body f_status f_headers f_body options_fat].
-    rewrite (package_stable r0 a _ Ha Hst), Ho.
+    assert (compute' (rq_path r0) tt (rw cfg r0) (Some OV_OPTIONS) true = (options_fat (Some (ms, hs, t)), tt, [])) as Hcomp.
+    { rewrite compute_options, (req_check_rw r0 a Ha), Hv. reflexivity. }
+    rewrite (serve_core_internal (rq_path r0) c now (rw cfg r0) OV_OPTIONS _ [] Hc eq_refl Hcomp (wants_cache_options _ _ _ _)).
+    cbn [rp_status rp_headers rp_body f_status f_headers f_body options_fat options_fat_sp].
+    rewrite (package_eq r0 a _ Ha), Ho.
     assert (rq_method r0 =? M_HEAD = false) as Hm.
     { unfold pf_shape in Hpf. apply andb_true_iff in Hpf as [Hpf _]. apply andb_true_iff in Hpf as [Hpf _].
       apply N.eqb_eq in Hpf. rewrite Hpf. reflexivity. }
@@ -391,8 +487,8 @@ Section Main.
   Lemma header_strip n r : beq n H_ORIGIN = false -> header n (strip_origin r) = header n r.
   Proof. intros Hn. unfold header, strip_origin. cbn [rq_headers]. apply assoc_strip. exact Hn. Qed.
 
-  Lemma compute_strip r : starts_with (B "/./") (rq_path r) = false ->
-    compute_ov parse ipo conn_scheme cfg app tt (strip_origin r) None true = compute_ov parse ipo conn_scheme cfg app tt r None true.
+  Lemma compute_strip cp cp' r : starts_with (B "/./") (rq_path r) = false ->
+    compute' cp tt (strip_origin r) None true = compute' cp' tt r None true.
   Proof.
     intros Hp. unfold compute_ov. cbn [negb]. change (rq_path (strip_origin r)) with (rq_path r).
     rewrite (Hign (rq_path r) r). destruct (app (rq_path r) r) as [[f lg]|]; [reflexivity|].
@@ -401,16 +497,16 @@ Section Main.
     apply beq_eq in E2. rewrite E2 in Hp. discriminate.
   Qed.
 
-  Lemma serve_core_strip st now r : starts_with (B "/./") (rq_path r) = false ->
-    serve_core parse ipo conn_scheme cfg app st now true (strip_origin r) None
-    = serve_core parse ipo conn_scheme cfg app st now true r None.
+  Lemma serve_core_strip cp cp' st now r : starts_with (B "/./") (rq_path r) = false ->
+    serve_core' cp st now true (strip_origin r) None
+    = serve_core' cp' st now true r None.
   Proof.
     intros Hp. unfold serve_core. destruct st as [c []].
-    rewrite (compute_strip r Hp).
+    rewrite (compute_strip cp cp' r Hp).
     change (key_request (strip_origin r) None) with (strip_origin r). change (key_request r None) with r.
     change (lookup (strip_origin r) c now) with (lookup r c now).
     rewrite (header_strip (B "if-modified-since") r eq_refl).
-    unfold miss. rewrite (compute_strip r Hp). reflexivity.
+    unfold miss_f. rewrite (compute_strip cp cp' r Hp). reflexivity.
   Qed.
 
   Lemma rw_strip r : rw cfg (strip_origin r) = strip_origin (rw cfg r).
@@ -421,44 +517,46 @@ Section Main.
     destruct (c =? 46); [reflexivity|]. destruct (c =? 47); reflexivity.
   Qed.
 
-  Lemma rw_external r : sanitize_ok_fix r = true -> starts_with (B "/./") (rq_path (rw cfg r)) = false.
+  Lemma rw_external r : sanitize_ok_pct r = true -> starts_with (B "/./") (rq_path (rw cfg r)) = false.
   Proof.
     intros Hs. unfold rw. destruct (cc_new cfg).
     - apply uri_redirect_external, sanitize_path, Hs.
-    - apply path_ok_external, sanitize_path, Hs.
+    - apply no_dot_slash_external, sanitize_path, Hs.
   Qed.
 
-  Lemma sanitize_strip r : sanitize_ok_fix (strip_origin r) = sanitize_ok_fix r.
+  Lemma sanitize_strip r : sanitize_ok_pct (strip_origin r) = sanitize_ok_pct r.
   Proof.
-    unfold sanitize_ok_fix, range_part_ok. change (rq_path (strip_origin r)) with (rq_path r).
+    unfold sanitize_ok_pct, range_part_ok. change (rq_path (strip_origin r)) with (rq_path r).
     rewrite (header_strip (B "range") r eq_refl). reflexivity.
   Qed.
 
   Lemma allowed_reply st now r0 a o :
-    header H_HOST r0 = Some a -> sanitize_ok_fix r0 = true -> stable cfg r0 ->
+    header H_HOST r0 = Some a -> sanitize_ok_pct r0 = true ->
     header H_ORIGIN r0 = Some o -> verdict_of r0 <> VRefuse -> pf_shape r0 = false ->
     respond' st now r0
     = (fst (respond' st now (strip_origin r0)),
        let w := snd (respond' st now (strip_origin r0)) in
        mkWire (w_status w) (if cc_with_cors cfg then set_header H_ACAO o (w_headers w) else w_headers w) (w_body w) (w_log w)).
   Proof.
-    intros Ha Hs Hst Ho Hv Hpf.
+    intros Ha Hs Ho Hv Hpf.
     assert (header H_HOST (strip_origin r0) = Some a) as Ha' by (rewrite (header_strip H_HOST r0 eq_refl); exact Ha).
-    assert (sanitize_ok_fix (strip_origin r0) = true) as Hs' by (rewrite sanitize_strip; exact Hs).
+    assert (sanitize_ok_pct (strip_origin r0) = true) as Hs' by (rewrite sanitize_strip; exact Hs).
     unfold respond, serve_ov.
-    rewrite (resolve_prime_eq parse conn_scheme cfg Hscheme r0 a Ha Hs).
-    rewrite (resolve_prime_eq parse conn_scheme cfg Hscheme (strip_origin r0) a Ha' Hs').
-    cbn [fst]. rewrite Hs, Hs'.
-    assert (ov_of parse conn_scheme cfg r0 = None) as Hov.
+    rewrite (resolve_prime_eq parse norm conn_scheme cfg Hscheme r0 a Ha Hs).
+    rewrite (resolve_prime_eq parse norm conn_scheme cfg Hscheme (strip_origin r0) a Ha' Hs').
+    rewrite !(cors_path_orig cfg). rewrite Hs, Hs'.
+    assert (ov_of parse norm conn_scheme cfg r0 = None) as Hov.
     { unfold ov_of. rewrite Hpf. destruct (verdict_of r0); [reflexivity|reflexivity|congruence]. }
-    assert (ov_of parse conn_scheme cfg (strip_origin r0) = None) as Hov'.
+    assert (ov_of parse norm conn_scheme cfg (strip_origin r0) = None) as Hov'.
     { assert (header H_ORIGIN (strip_origin r0) = None) as Hn
         by (unfold header, strip_origin; cbn [rq_headers]; apply assoc_strip_origin).
-      unfold ov_of, pf_shape, has, req_verdict, cors_spec. rewrite !Hn. rewrite andb_false_r. reflexivity. }
-    rewrite Hov, Hov', rw_strip, (serve_core_strip st now (rw cfg r0) (rw_external r0 Hs)).
-    destruct (serve_core parse ipo conn_scheme cfg app st now true (rw cfg r0) None) as [[st' rp] lg]. cbn [fst snd].
-    rewrite (package_stable r0 a _ Ha Hst), Ho.
-    assert (cors_package parse ipo conn_scheme cfg (strip_origin (rw cfg r0)) (rp_headers rp) = rp_headers rp) as Hpk.
+      unfold ov_of, pf_shape, has, req_verdict, cors_spec2, cors_spec. rewrite !Hn. rewrite andb_false_r. reflexivity. }
+    rewrite Hov, Hov', rw_strip.
+    change (rq_path (strip_origin r0)) with (rq_path r0).
+    rewrite (serve_core_strip (rq_path r0) (rq_path r0) st now (rw cfg r0) (rw_external r0 Hs)).
+    destruct (serve_core' (rq_path r0) st now true (rw cfg r0) None) as [[st' rp] lg]. cbn [fst snd].
+    rewrite (package_eq r0 a _ Ha), Ho.
+    assert (cors_package parse ipo norm conn_scheme cfg (rq_path r0) (strip_origin (rw cfg r0)) (rp_headers rp) = rp_headers rp) as Hpk.
     { unfold cors_package. destruct (cc_with_cors cfg); [|reflexivity].
       unfold header, strip_origin. cbn [rq_headers]. rewrite assoc_strip_origin. reflexivity. }
     rewrite Hpk. cbn [w_status w_headers w_body w_log].
@@ -517,35 +615,39 @@ Qed.
 Section Invariant.
   Variable parse : bytes -> option uparts.
   Variable ipo : bytes -> option bytes -> option bytes -> bool.
+  Variable norm : bytes -> bytes.
+  Variable keep : bool.
+  Variable denied_sp : N.
+  Variable filt : N -> bool.
   Variable conn_scheme : bytes.
   Variable cfg : ccfg.
   Variable app : app_handlers.
+  Notation compute' := (compute_ov parse ipo norm denied_sp conn_scheme cfg app).
 
-  Lemma compute_not_ok r ov f lg : compute_ov parse ipo conn_scheme cfg app tt r ov false = (f, tt, lg) ->
-    wants_cache (cc_cache cfg) (rq_method r) f = false.
+  Lemma compute_not_ok cp r ov f lg : compute' cp tt r ov false = (f, tt, lg) ->
+    wants_cache_f filt (cc_cache cfg) (rq_method r) f = false.
   Proof.
     unfold compute_ov. cbn [negb]. intros H. inversion H; subst.
-    unfold wants_cache. cbn [error_fat f_spref]. change (pref_caches SP_NONE) with false. rewrite andb_false_r. reflexivity.
+    unfold wants_cache_f. cbn [error_fat f_spref]. change (pref_caches SP_NONE) with false. rewrite andb_false_r. reflexivity.
   Qed.
 
-  Lemma miss_no_internal c1 now r ok ov :
+  Lemma miss_no_internal cp c1 now r ok ov :
     no_internal c1 -> (ok = true -> starts_with (B "/./") (rq_path r) = false) ->
-    no_internal (fst (fst (fst (miss unit (fun hs r ok => compute_ov parse ipo conn_scheme cfg app hs r ov ok) (cc_cache cfg) true
-                                 no_negotiate no_vary_tuple no_vary_header c1 tt now r ok)))).
+    no_internal (fst (fst (fst (miss_f filt cfg (fun hs r ok => compute' cp hs r ov ok) c1 tt now r ok)))).
   Proof.
-    intros Hc Hp. unfold miss. destruct (compute_ov parse ipo conn_scheme cfg app tt r ov ok) as [[f []] lg] eqn:Hcomp.
-    destruct (may_store (cc_cache cfg) (rq_method r) f) eqn:M; cbn [fst]; [|exact Hc].
+    intros Hc Hp. unfold miss_f. destruct (compute' cp tt r ov ok) as [[f []] lg] eqn:Hcomp.
+    destruct (may_store_f filt (cc_cache cfg) (rq_method r) f) eqn:M; cbn [fst]; [|exact Hc].
     apply no_internal_insert; [|exact Hc]. apply insert_key_external.
     destruct ok; [apply Hp; reflexivity|].
-    apply compute_not_ok in Hcomp. unfold may_store in M. rewrite Hcomp in M. discriminate.
+    apply compute_not_ok in Hcomp. unfold may_store_f in M. rewrite Hcomp in M. discriminate.
   Qed.
 
-  Lemma serve_core_no_internal c now ok r ov :
+  Lemma serve_core_no_internal cp c now ok r ov :
     no_internal c -> (ok = true -> starts_with (B "/./") (rq_path r) = false) ->
-    no_internal (fst (fst (fst (serve_core parse ipo conn_scheme cfg app (c, tt) now ok r ov)))).
+    no_internal (fst (fst (fst (serve_core parse ipo norm denied_sp filt conn_scheme cfg app cp (c, tt) now ok r ov)))).
   Proof.
     intros Hc Hp. unfold serve_core. destruct (negb (cc_cache cfg)).
-    - destruct (compute_ov parse ipo conn_scheme cfg app tt r ov ok) as [[f hs'] lg]. exact Hc.
+    - destruct (compute' cp tt r ov ok) as [[f hs'] lg]. exact Hc.
     - destruct (lookup (key_request r ov) c now) as [[k found] c1] eqn:L.
       destruct (lookup_inv _ _ _ _ _ _ L Hc) as [Hc1 Hk].
       destruct found as [e|]; [|apply miss_no_internal; assumption].
@@ -553,67 +655,69 @@ Section Invariant.
       destruct (match match header (B "if-modified-since") r with Some v => parse_ims_fix v | None => None end with
                 | Some t => ims_fresh t (e_created e) | None => false end); [exact Hc1|].
       destruct (v_find (no_vary_tuple r) (e_vars e)); [exact Hc1|].
-      destruct (compute_ov parse ipo conn_scheme cfg app tt r ov ok) as [[f hs'] lg]. cbn [fst].
+      destruct (compute' cp tt r ov ok) as [[f hs'] lg]. cbn [fst].
       apply no_internal_insert; [apply (Hk e eq_refl)|exact Hc1].
   Qed.
 
-  Lemma resolve_tail r0 u : sanitize_ok_fix r0 = true ->
-    resolve_prime parse ipo conn_scheme cfg (if cc_new cfg then [((-100)%Z, P_uri_redirect)] else []) r0 u = (rw cfg r0, u).
+  (** whatever the primes before it did, [uri_redirect] leaves a sanitary path external *)
+  Lemma resolve_tail_fst r0 u og : contains_sub (B "./") (rq_path r0) = false ->
+    fst (fst (resolve_prime parse ipo norm keep conn_scheme cfg (if cc_new cfg then [((-100)%Z, P_uri_redirect)] else []) r0 u og)) = rw cfg r0.
   Proof.
     intros Hs. unfold rw. destruct (cc_new cfg); [|reflexivity].
     cbn [resolve_prime call_prime].
     destruct (beq (rq_path (uri_redirect r0)) (rq_path r0)) eqn:E.
-    - f_equal. apply beq_eq in E. destruct (uri_redirect_fields r0) as (Hm & Hq & Hh & Had).
+    - cbn [fst]. apply beq_eq in E. destruct (uri_redirect_fields r0) as (Hm & Hq & Hh & Had).
       destruct r0 as [m p q h ad], (uri_redirect (mkReq m p q h ad)) as [m' p' q' h' ad'] eqn:U; cbn in *; subst; reflexivity.
-    - rewrite (uri_redirect_external r0 (sanitize_path r0 Hs)).
+    - rewrite (uri_redirect_external r0 Hs). cbn [fst].
       destruct (uri_redirect_fields r0) as (Hm & Hq & Hh & Had).
-      f_equal. destruct (uri_redirect r0) as [m' p' q' h' ad'] eqn:U; cbn in *; subst; reflexivity.
+      destruct (uri_redirect r0) as [m' p' q' h' ad'] eqn:U; cbn in *; subst; reflexivity.
   Qed.
 
-  Lemma call_gate_shape r :
-    call_prime parse ipo conn_scheme cfg (gate_id cfg) r = None \/
-    call_prime parse ipo conn_scheme cfg (gate_id cfg) r = Some (OV_FAIL, None).
+  Lemma call_gate_shape og r :
+    call_prime parse ipo norm keep conn_scheme cfg (gate_id cfg) og r = None \/
+    call_prime parse ipo norm keep conn_scheme cfg (gate_id cfg) og r = Some (OV_FAIL, None).
   Proof.
     unfold gate_id. destruct (cc_with_cors cfg); cbn [call_prime].
-    - destruct (req_check parse ipo conn_scheme (cc_rules cfg) r); [left|right]; reflexivity.
+    - destruct (req_check parse ipo norm conn_scheme (cc_rules cfg) (cors_path keep og r) r); [left|right]; reflexivity.
     - destruct (header H_ORIGIN r) as [o|]; [|left; reflexivity].
       destruct (to_str_ok o); [destruct (ipo o (Some conn_scheme) (header H_HOST r)); cbn [negb]; [left|right]; reflexivity|right; reflexivity].
   Qed.
 
-  Lemma call_options' r :
-    call_prime parse ipo conn_scheme cfg P_options r = if pf_shape r then Some (OV_OPTIONS, None) else None.
+  Lemma call_options' og r :
+    call_prime parse ipo norm keep conn_scheme cfg P_options og r = if pf_shape r then Some (OV_OPTIONS, None) else None.
   Proof. reflexivity. Qed.
 
-  Lemma resolve_prime_fst r0 : sanitize_ok_fix r0 = true ->
-    fst (resolve_prime parse ipo conn_scheme cfg (prime_list cfg) r0 None) = rw cfg r0.
+  Lemma resolve_prime_fst r0 : sanitize_ok_pct r0 = true ->
+    fst (fst (primed parse ipo norm keep conn_scheme cfg r0)) = rw cfg r0.
   Proof.
-    intros Hs. rewrite prime_list_shape. cbn [resolve_prime].
-    destruct (call_gate_shape r0) as [-> | ->]; rewrite call_options'; destruct (pf_shape r0);
+    intros Hs. unfold primed. rewrite prime_list_shape. cbn [resolve_prime].
+    destruct (call_gate_shape None r0) as [-> | ->]; rewrite call_options'; destruct (pf_shape r0);
       repeat (change (starts_with (B "/./") OV_FAIL) with true; change (starts_with (B "/./") OV_OPTIONS) with true; cbv iota);
-      rewrite (resolve_tail r0 _ Hs); reflexivity.
+      apply resolve_tail_fst, sanitize_path, Hs.
   Qed.
 
   Lemma respond_no_internal c now r0 :
-    no_internal c -> no_internal (fst (fst (respond parse ipo conn_scheme cfg app (c, tt) now r0))).
+    no_internal c -> no_internal (fst (fst (respond parse ipo norm keep denied_sp filt conn_scheme cfg app (c, tt) now r0))).
   Proof.
     intros Hc. unfold respond, serve_ov.
-    destruct (resolve_prime parse ipo conn_scheme cfg (prime_list cfg) r0 None) as [r ov] eqn:R.
-    pose proof (serve_core_no_internal c now (sanitize_ok_fix r0) r ov Hc) as H.
-    destruct (serve_core parse ipo conn_scheme cfg app (c, tt) now (sanitize_ok_fix r0) r ov) as [[st' rp] lg]. cbn [fst] in *.
+    destruct (primed parse ipo norm keep conn_scheme cfg r0) as [[r ov] og] eqn:R.
+    pose proof (serve_core_no_internal (cors_path keep og r) c now (sanitize_ok_pct r0) r ov Hc) as H.
+    destruct (serve_core parse ipo norm denied_sp filt conn_scheme cfg app (cors_path keep og r) (c, tt) now (sanitize_ok_pct r0) r ov) as [[st' rp] lg].
+    cbn [fst] in *.
     apply H. intros Hs. pose proof (resolve_prime_fst r0 Hs) as Hf. rewrite R in Hf. cbn [fst] in Hf. subst r.
     unfold rw. destruct (cc_new cfg).
     - apply uri_redirect_external, sanitize_path, Hs.
-    - apply path_ok_external, sanitize_path, Hs.
+    - apply no_dot_slash_external, sanitize_path, Hs.
   Qed.
 
   (** every cache state reachable by a history of requests (at any times) and clears keeps the invariant *)
   Lemma reachable_no_internal ops st now :
-    no_internal (fst st) -> no_internal (fst (run_conn_state parse ipo conn_scheme cfg app st now ops)).
+    no_internal (fst st) -> no_internal (fst (run_conn_state parse ipo norm keep denied_sp filt conn_scheme cfg app st now ops)).
   Proof.
     revert st now. induction ops as [|[[r|] dt] rest IH]; intros [c []] now Hc; cbn [run_conn_state].
     - exact Hc.
     - apply IH. pose proof (respond_no_internal c (now + dt) r Hc) as H.
-      destruct (respond parse ipo conn_scheme cfg app (c, tt) (now + dt) r) as [[c' []] w]. exact H.
+      destruct (respond parse ipo norm keep denied_sp filt conn_scheme cfg app (c, tt) (now + dt) r) as [[c' []] w]. exact H.
     - apply IH. cbn [fst snd]. intros k e [].
   Qed.
 End Invariant.
@@ -621,108 +725,149 @@ End Invariant.
 (** ---- the statements of Properties/C13.v ---- *)
 
 (** the verdict is the decision function applied to the most specific rule of the configuration history *)
-Lemma verdict_most_specific parse conn_scheme cfg hist r a :
+Lemma verdict_most_specific parse norm conn_scheme cfg hist r a :
   rs_reach hist (cc_rules cfg) -> header H_HOST r = Some a ->
-  req_verdict parse conn_scheme cfg r
-  = cors_spec parse (hist_lookup cfg hist) (rq_method r) conn_scheme a (rq_path r) (header H_ORIGIN r).
+  req_verdict parse norm conn_scheme cfg r
+  = cors_spec2 norm parse (hist_lookup cfg hist) (rq_method r) conn_scheme a (rq_path r) (header H_ORIGIN r).
 Proof.
-  intros Hr Ha. unfold req_verdict, cors_spec, hist_lookup, effective_rules. rewrite Ha.
-  destruct (cc_with_cors cfg); [rewrite (rs_get_resolve hist (cc_rules cfg) (rq_path r) Hr)|]; reflexivity.
+  intros Hr Ha. unfold req_verdict, cors_spec2, cors_spec, hist_lookup, effective_rules. rewrite Ha.
+  destruct (cc_with_cors cfg); [|reflexivity].
+  rewrite (rs_get_resolve hist (cc_rules cfg) (rq_path r) Hr), (rs_get_resolve hist (cc_rules cfg) (norm (rq_path r)) Hr). reflexivity.
 Qed.
 
 Lemma decision_proof :
-  forall (parse : bytes -> option uparts) (conn_scheme : bytes) (cfg : ccfg) (app : app_handlers) (c : cache) (now : N) (r0 : request) (a o : bytes),
+  forall (parse : bytes -> option uparts) (filt : N -> bool) (conn_scheme : bytes) (cfg : ccfg) (app : app_handlers) (c : cache) (now : N) (r0 : request) (a o : bytes),
     mem_byte c_colon conn_scheme = false -> app_external app -> app_ignores_origin app -> no_internal c ->
-    header H_HOST r0 = Some a -> header H_ORIGIN r0 = Some o -> sanitize_ok_fix r0 = true -> stable cfg r0 ->
-    (req_verdict parse conn_scheme cfg r0 = VRefuse ->
-       respond parse is_part_of_origin conn_scheme cfg app (c, tt) now r0
+    header H_HOST r0 = Some a -> header H_ORIGIN r0 = Some o -> sanitize_ok_pct r0 = true ->
+    (req_verdict parse resolved_path conn_scheme cfg r0 = VRefuse ->
+       respond parse is_part_of_origin resolved_path true SP_NONE filt conn_scheme cfg app (c, tt) now r0
        = ((c, tt), mkWire 403 [] (if rq_method r0 =? M_HEAD then [] else DENIED) []))
-    /\ (req_verdict parse conn_scheme cfg r0 <> VRefuse -> pf_shape r0 = false ->
-       respond parse is_part_of_origin conn_scheme cfg app (c, tt) now r0
-       = (fst (respond parse is_part_of_origin conn_scheme cfg app (c, tt) now (strip_origin r0)),
-          let w := snd (respond parse is_part_of_origin conn_scheme cfg app (c, tt) now (strip_origin r0)) in
+    /\ (req_verdict parse resolved_path conn_scheme cfg r0 <> VRefuse -> pf_shape r0 = false ->
+       respond parse is_part_of_origin resolved_path true SP_NONE filt conn_scheme cfg app (c, tt) now r0
+       = (fst (respond parse is_part_of_origin resolved_path true SP_NONE filt conn_scheme cfg app (c, tt) now (strip_origin r0)),
+          let w := snd (respond parse is_part_of_origin resolved_path true SP_NONE filt conn_scheme cfg app (c, tt) now (strip_origin r0)) in
           mkWire (w_status w) (if cc_with_cors cfg then set_header H_ACAO o (w_headers w) else w_headers w) (w_body w) (w_log w))).
 Proof.
-  intros parse sch cfg app c now r0 a o Hsch Hext Hign Hc Ha Ho Hs Hst. split.
-  - intros Hv. apply (refused_reply parse sch cfg app Hsch Hext c now r0 a Ha Hs Hc Hst Hv).
-  - intros Hv Hpf. apply (allowed_reply parse sch cfg app Hsch Hign (c, tt) now r0 a o Ha Hs Hst Ho Hv Hpf).
+  intros parse filt sch cfg app c now r0 a o Hsch Hext Hign Hc Ha Ho Hs. split.
+  - intros Hv. apply (refused_reply parse filt sch cfg app Hsch Hext c now r0 a Ha Hs Hc Hv).
+  - intros Hv Hpf. apply (allowed_reply parse filt sch cfg app Hsch Hign (c, tt) now r0 a o Ha Hs Ho Hv Hpf).
 Qed.
 
 Lemma cache_independent_proof :
-  forall (parse : bytes -> option uparts) (conn_scheme : bytes) (cfg : ccfg) (app : app_handlers) (r0 : request) (a : bytes),
+  forall (parse : bytes -> option uparts) (filt : N -> bool) (conn_scheme : bytes) (cfg : ccfg) (app : app_handlers) (r0 : request) (a : bytes),
     mem_byte c_colon conn_scheme = false -> app_external app ->
-    header H_HOST r0 = Some a -> sanitize_ok_fix r0 = true -> stable cfg r0 ->
+    header H_HOST r0 = Some a -> sanitize_ok_pct r0 = true ->
     (* (a) the invariant holds in every state a history of requests and clears can reach *)
-    (forall ops now, no_internal (fst (run_conn_state parse is_part_of_origin conn_scheme cfg app ([], tt) now ops)))
+    (forall ops now, no_internal (fst (run_conn_state parse is_part_of_origin resolved_path true SP_NONE filt conn_scheme cfg app ([], tt) now ops)))
     (* (b) a refused request and a preflight get the same reply and leave the cache alone in every such state *)
-    /\ (req_verdict parse conn_scheme cfg r0 = VRefuse \/ (pf_shape r0 = true) ->
+    /\ (req_verdict parse resolved_path conn_scheme cfg r0 = VRefuse \/ (pf_shape r0 = true) ->
         forall c1 c2 now1 now2, no_internal c1 -> no_internal c2 ->
-          snd (respond parse is_part_of_origin conn_scheme cfg app (c1, tt) now1 r0)
-          = snd (respond parse is_part_of_origin conn_scheme cfg app (c2, tt) now2 r0)
-          /\ fst (respond parse is_part_of_origin conn_scheme cfg app (c1, tt) now1 r0) = (c1, tt)).
+          snd (respond parse is_part_of_origin resolved_path true SP_NONE filt conn_scheme cfg app (c1, tt) now1 r0)
+          = snd (respond parse is_part_of_origin resolved_path true SP_NONE filt conn_scheme cfg app (c2, tt) now2 r0)
+          /\ fst (respond parse is_part_of_origin resolved_path true SP_NONE filt conn_scheme cfg app (c1, tt) now1 r0) = (c1, tt)).
 Proof.
-  intros parse sch cfg app r0 a Hsch Hext Ha Hs Hst. split.
+  intros parse filt sch cfg app r0 a Hsch Hext Ha Hs. split.
   - intros ops now. apply reachable_no_internal. intros k e [].
   - intros Hcase c1 c2 now1 now2 Hc1 Hc2.
-    destruct (req_verdict parse sch cfg r0) eqn:Hv.
+    destruct (req_verdict parse resolved_path sch cfg r0) eqn:Hv.
     + destruct Hcase as [Hcase|Hpf]; [discriminate|].
       destruct (header H_ORIGIN r0) as [o|] eqn:Ho.
       2:{ unfold pf_shape, has in Hpf. rewrite Ho in Hpf. rewrite andb_false_r in Hpf. discriminate. }
-      rewrite (preflight_reply parse sch cfg app Hsch Hext c1 now1 r0 a o None [] 604800000 Ha Hs Hc1 Hst Hpf Ho) by (rewrite Hv; reflexivity).
-      rewrite (preflight_reply parse sch cfg app Hsch Hext c2 now2 r0 a o None [] 604800000 Ha Hs Hc2 Hst Hpf Ho) by (rewrite Hv; reflexivity).
+      rewrite (preflight_reply parse filt sch cfg app Hsch Hext c1 now1 r0 a o None [] 604800000 Ha Hs Hc1 Hpf Ho) by (rewrite Hv; reflexivity).
+      rewrite (preflight_reply parse filt sch cfg app Hsch Hext c2 now2 r0 a o None [] 604800000 Ha Hs Hc2 Hpf Ho) by (rewrite Hv; reflexivity).
       split; reflexivity.
     + destruct Hcase as [Hcase|Hpf]; [discriminate|].
       destruct (header H_ORIGIN r0) as [o|] eqn:Ho.
       2:{ unfold pf_shape, has in Hpf. rewrite Ho in Hpf. rewrite andb_false_r in Hpf. discriminate. }
       destruct g as [[ms hs] t].
-      rewrite (preflight_reply parse sch cfg app Hsch Hext c1 now1 r0 a o ms hs t Ha Hs Hc1 Hst Hpf Ho) by (rewrite Hv; reflexivity).
-      rewrite (preflight_reply parse sch cfg app Hsch Hext c2 now2 r0 a o ms hs t Ha Hs Hc2 Hst Hpf Ho) by (rewrite Hv; reflexivity).
+      rewrite (preflight_reply parse filt sch cfg app Hsch Hext c1 now1 r0 a o ms hs t Ha Hs Hc1 Hpf Ho) by (rewrite Hv; reflexivity).
+      rewrite (preflight_reply parse filt sch cfg app Hsch Hext c2 now2 r0 a o ms hs t Ha Hs Hc2 Hpf Ho) by (rewrite Hv; reflexivity).
       split; reflexivity.
-    + rewrite (refused_reply parse sch cfg app Hsch Hext c1 now1 r0 a Ha Hs Hc1 Hst Hv).
-      rewrite (refused_reply parse sch cfg app Hsch Hext c2 now2 r0 a Ha Hs Hc2 Hst Hv). split; reflexivity.
+    + rewrite (refused_reply parse filt sch cfg app Hsch Hext c1 now1 r0 a Ha Hs Hc1 Hv).
+      rewrite (refused_reply parse filt sch cfg app Hsch Hext c2 now2 r0 a Ha Hs Hc2 Hv). split; reflexivity.
 Qed.
 
 Lemma same_origin_proof :
-  forall (parse : bytes -> option uparts) (conn_scheme : bytes) (cfg : ccfg) (app : app_handlers) (st : state unit) (now : N) (r0 : request) (a o : bytes),
+  forall (parse : bytes -> option uparts) (filt : N -> bool) (conn_scheme : bytes) (cfg : ccfg) (app : app_handlers) (st : state unit) (now : N) (r0 : request) (a o : bytes),
     mem_byte c_colon conn_scheme = false -> app_ignores_origin app ->
-    header H_HOST r0 = Some a -> header H_ORIGIN r0 = Some o -> sanitize_ok_fix r0 = true -> stable cfg r0 ->
-    req_verdict parse conn_scheme cfg r0 = VSame -> pf_shape r0 = false ->
-    respond parse is_part_of_origin conn_scheme cfg app st now r0
-    = (fst (respond parse is_part_of_origin conn_scheme cfg app st now (strip_origin r0)),
-       let w := snd (respond parse is_part_of_origin conn_scheme cfg app st now (strip_origin r0)) in
+    header H_HOST r0 = Some a -> header H_ORIGIN r0 = Some o -> sanitize_ok_pct r0 = true ->
+    req_verdict parse resolved_path conn_scheme cfg r0 = VSame -> pf_shape r0 = false ->
+    respond parse is_part_of_origin resolved_path true SP_NONE filt conn_scheme cfg app st now r0
+    = (fst (respond parse is_part_of_origin resolved_path true SP_NONE filt conn_scheme cfg app st now (strip_origin r0)),
+       let w := snd (respond parse is_part_of_origin resolved_path true SP_NONE filt conn_scheme cfg app st now (strip_origin r0)) in
        mkWire (w_status w) (if cc_with_cors cfg then set_header H_ACAO o (w_headers w) else w_headers w) (w_body w) (w_log w)).
 Proof.
-  intros parse sch cfg app st now r0 a o Hsch Hign Ha Ho Hs Hst Hv Hpf.
-  apply (allowed_reply parse sch cfg app Hsch Hign st now r0 a o Ha Hs Hst Ho); [rewrite Hv; discriminate|exact Hpf].
+  intros parse filt sch cfg app st now r0 a o Hsch Hign Ha Ho Hs Hv Hpf.
+  apply (allowed_reply parse filt sch cfg app Hsch Hign st now r0 a o Ha Hs Ho); [rewrite Hv; discriminate|exact Hpf].
 Qed.
 
 (** the same along every history: whatever requests (same-origin, allowed, refused, unsanitary, at any
     times) and cache clears came before, from the empty cache *)
 Lemma decision_histories_proof :
-  forall (parse : bytes -> option uparts) (conn_scheme : bytes) (cfg : ccfg) (app : app_handlers) (ops : list (cop * N)) (t0 now : N) (r0 : request) (a o : bytes),
+  forall (parse : bytes -> option uparts) (filt : N -> bool) (conn_scheme : bytes) (cfg : ccfg) (app : app_handlers) (ops : list (cop * N)) (t0 now : N) (r0 : request) (a o : bytes),
     mem_byte c_colon conn_scheme = false -> app_external app -> app_ignores_origin app ->
-    header H_HOST r0 = Some a -> header H_ORIGIN r0 = Some o -> sanitize_ok_fix r0 = true -> stable cfg r0 ->
-    let st := run_conn_state parse is_part_of_origin conn_scheme cfg app ([], tt) t0 ops in
-    (req_verdict parse conn_scheme cfg r0 = VRefuse ->
-       respond parse is_part_of_origin conn_scheme cfg app st now r0
+    header H_HOST r0 = Some a -> header H_ORIGIN r0 = Some o -> sanitize_ok_pct r0 = true ->
+    let st := run_conn_state parse is_part_of_origin resolved_path true SP_NONE filt conn_scheme cfg app ([], tt) t0 ops in
+    (req_verdict parse resolved_path conn_scheme cfg r0 = VRefuse ->
+       respond parse is_part_of_origin resolved_path true SP_NONE filt conn_scheme cfg app st now r0
        = (st, mkWire 403 [] (if rq_method r0 =? M_HEAD then [] else DENIED) []))
-    /\ (req_verdict parse conn_scheme cfg r0 <> VRefuse -> pf_shape r0 = false ->
-       respond parse is_part_of_origin conn_scheme cfg app st now r0
-       = (fst (respond parse is_part_of_origin conn_scheme cfg app st now (strip_origin r0)),
-          let w := snd (respond parse is_part_of_origin conn_scheme cfg app st now (strip_origin r0)) in
+    /\ (req_verdict parse resolved_path conn_scheme cfg r0 <> VRefuse -> pf_shape r0 = false ->
+       respond parse is_part_of_origin resolved_path true SP_NONE filt conn_scheme cfg app st now r0
+       = (fst (respond parse is_part_of_origin resolved_path true SP_NONE filt conn_scheme cfg app st now (strip_origin r0)),
+          let w := snd (respond parse is_part_of_origin resolved_path true SP_NONE filt conn_scheme cfg app st now (strip_origin r0)) in
           mkWire (w_status w) (if cc_with_cors cfg then set_header H_ACAO o (w_headers w) else w_headers w) (w_body w) (w_log w))).
 Proof.
-  intros parse sch cfg app ops t0 now r0 a o Hsch Hext Hign Ha Ho Hs Hst st.
+  intros parse filt sch cfg app ops t0 now r0 a o Hsch Hext Hign Ha Ho Hs st.
   assert (no_internal (fst st)) as Hc by (apply reachable_no_internal; intros k e []).
   destruct st as [c []]. cbn [fst] in Hc.
-  apply (decision_proof parse sch cfg app c now r0 a o Hsch Hext Hign Hc Ha Ho Hs Hst).
+  apply (decision_proof parse filt sch cfg app c now r0 a o Hsch Hext Hign Hc Ha Ho Hs).
 Qed.
 
-(** the marker handlers of the correspondence are such an application *)
+(** the header an allowed request gets is the one header of that name and carries the origin bytes,
+    whatever the handler set itself *)
+Lemma assoc_set_header n v hs : assoc n (set_header n v hs) = Some v.
+Proof.
+  induction hs as [|[k w] r IH]; cbn [set_header assoc]; [rewrite beq_refl; reflexivity|].
+  destruct (beq k n) eqn:E; cbn [assoc]; [rewrite beq_refl; reflexivity|].
+  rewrite beq_sym, E. exact IH.
+Qed.
+Definition count_header (n : bytes) (hs : list (bytes * bytes)) : nat := length (filter (fun h => beq (fst h) n) hs).
+Lemma count_filter_out n hs : count_header n (filter (fun h : bytes * bytes => negb (beq (fst h) n)) hs) = O.
+Proof.
+  unfold count_header. induction hs as [|[k w] r IH]; [reflexivity|].
+  cbn [filter fst]. destruct (beq k n) eqn:E; cbn [negb]; [exact IH|]. cbn [filter fst]. rewrite E. exact IH.
+Qed.
+Lemma count_set_header n v hs : count_header n (set_header n v hs) = 1%nat.
+Proof.
+  induction hs as [|[k w] r IH]; cbn [set_header].
+  - unfold count_header. cbn [filter fst]. rewrite beq_refl. reflexivity.
+  - destruct (beq k n) eqn:E.
+    + unfold count_header. cbn [filter fst]. rewrite beq_refl. cbn [length]. f_equal. apply count_filter_out.
+    + unfold count_header in *. cbn [filter fst]. rewrite E. exact IH.
+Qed.
+
+Lemma acao_exact_proof :
+  forall (parse : bytes -> option uparts) (filt : N -> bool) (conn_scheme : bytes) (cfg : ccfg) (app : app_handlers) (st : state unit) (now : N) (r0 : request) (a o : bytes),
+    mem_byte c_colon conn_scheme = false -> app_ignores_origin app ->
+    header H_HOST r0 = Some a -> header H_ORIGIN r0 = Some o -> sanitize_ok_pct r0 = true ->
+    req_verdict parse resolved_path conn_scheme cfg r0 <> VRefuse -> pf_shape r0 = false -> cc_with_cors cfg = true ->
+    let w := snd (respond parse is_part_of_origin resolved_path true SP_NONE filt conn_scheme cfg app st now r0) in
+    assoc H_ACAO (w_headers w) = Some o /\ count_header H_ACAO (w_headers w) = 1%nat.
+Proof.
+  intros parse filt sch cfg app st now r0 a o Hsch Hign Ha Ho Hs Hv Hpf W.
+  rewrite (allowed_reply parse filt sch cfg app Hsch Hign st now r0 a o Ha Hs Ho Hv Hpf).
+  cbn [snd w_headers]. rewrite W. split; [apply assoc_set_header|apply count_set_header].
+Qed.
+
+(** the handlers of the correspondence are such an application *)
 Lemma marker_app_external hs :
   (forall p sp, In (p, sp) hs -> starts_with (B "/./") p = false) -> app_external (marker_app hs).
 Proof. intros H key r Hk. unfold marker_app. rewrite (find_marker_internal key hs O None H Hk). reflexivity. Qed.
 Lemma marker_app_ignores_origin hs : app_ignores_origin (marker_app hs).
+Proof. intros key r. reflexivity. Qed.
+Lemma site_app_external hs st : app_external (site_app hs st).
+Proof. intros key r Hk. unfold site_app. rewrite Hk. reflexivity. Qed.
+Lemma site_app_ignores_origin hs st : app_ignores_origin (site_app hs st).
 Proof. intros key r. reflexivity. Qed.
 
 (** ---- witnesses ---- *)
@@ -732,25 +877,58 @@ Definition ex_hist : list (bytes * allow_list) :=
   [(B "/api/*", ex_al [mkAO (B "https") (B "icelk.dev") None] false); (B "/api/index.html", ex_al [] true)].
 Definition ex_cfg : ccfg := mkCfgC true true (rs_build rs_add ex_hist) [(B "/api/x", 2); (B "/api/index.html", 2)] true.
 Definition ex_req (m : N) (p : bytes) (hs : list (bytes * bytes)) : request := mkReq m p None ((H_HOST, B "localhost") :: hs) 0.
+(** a site with files: /api/* only for https://icelk.dev, everything else open *)
+Definition ex_hist_fs : list (bytes * allow_list) :=
+  [(B "/api/*", ex_al [mkAO (B "https") (B "icelk.dev") None] false); (B "/*", ex_al [] true)].
+Definition ex_site : site := mkSite [(B "api/secret.json", B "SECRET"); (B "pub.txt", B "PUBLIC")] [] 0.
+Definition ex_cfg_fs : ccfg := mkCfgC false true (rs_build rs_add ex_hist_fs) [] true.
+Definition ex_app_fs : app_handlers := site_app [] (Some ex_site).
 
-(** the known class: GET /api/ from an origin the rule of /api/ refuses; uri_redirect moves the path to
-    /api/index.html whose rule allows all origins: 403 *with* access-control-allow-origin *)
+(** the code before the repair 9dff57d (no RequestedUri): GET /api/ from an origin the rule of /api/ refuses;
+    uri_redirect moves the path to /api/index.html whose rule allows all origins: 403 *with*
+    access-control-allow-origin *)
 Lemma known_class_witness :
   let r := ex_req M_GET (B "/api/") [(H_ORIGIN, B "https://evil.example")] in
-  req_verdict parse_uri CONN_SCHEME ex_cfg r = VRefuse /\ ~ stable ex_cfg r /\
-  snd (respond parse_uri is_part_of_origin CONN_SCHEME ex_cfg (marker_app (cc_handlers ex_cfg)) ([], tt) 0 r)
+  req_verdict parse_uri resolved_path CONN_SCHEME ex_cfg r = VRefuse /\ ~ stable ex_cfg r /\
+  snd (respond parse_uri is_part_of_origin resolved_path false SP_NONE default_filter CONN_SCHEME ex_cfg (marker_app (cc_handlers ex_cfg)) ([], tt) 0 r)
   = mkWire 403 [(H_ACAO, B "https://evil.example")] DENIED [].
 Proof.
   cbv zeta. split; [vm_compute; reflexivity|]. split; [|vm_compute; reflexivity].
   unfold stable. vm_compute. discriminate.
 Qed.
 
-(** the code before the repair: Origin: null took the same-origin branch *)
+(** the code before the repair c64bc9b: Origin: null took the same-origin branch *)
 Lemma null_origin_v0_witness :
   let r := ex_req M_GET (B "/api/x") [(H_ORIGIN, B "null")] in
-  req_verdict parse_uri CONN_SCHEME ex_cfg r = VRefuse /\ stable ex_cfg r /\
-  snd (respond parse_uri is_part_of_origin_v0 CONN_SCHEME ex_cfg (marker_app (cc_handlers ex_cfg)) ([], tt) 0 r)
+  req_verdict parse_uri resolved_path CONN_SCHEME ex_cfg r = VRefuse /\
+  snd (respond parse_uri is_part_of_origin_v0 resolved_path true SP_NONE default_filter CONN_SCHEME ex_cfg (marker_app (cc_handlers ex_cfg)) ([], tt) 0 r)
   = mkWire 200 [(H_ACAO, B "null")] (B "h0:/api/x") [B "h0"].
 Proof.
+  cbv zeta. split; vm_compute; reflexivity.
+Qed.
+
+(** the code before the repair 43f721b (rule looked up with the path as spelled only): GET /%61pi/secret.json
+    from an origin that the rule of /api/secret.json refuses is judged by /* and gets the file *)
+Lemma raw_path_v0_witness :
+  let r := ex_req M_GET (B "/%61pi/secret.json") [(H_ORIGIN, B "https://evil.example")] in
+  fs_find (st_files ex_site) (rq_path r) = Some (B "api/secret.json", B "SECRET") /\
+  cors_spec parse_uri (rs_get (effective_rules ex_cfg_fs)) M_GET CONN_SCHEME (B "localhost") (B "/api/secret.json") (Some (B "https://evil.example")) = VRefuse /\
+  snd (respond parse_uri is_part_of_origin resolved_path_v0 true SP_NONE default_filter CONN_SCHEME ex_cfg_fs ex_app_fs ([], tt) 0 r)
+  = mkWire 200 [(H_ACAO, B "https://evil.example")] (B "SECRET") [].
+Proof.
   cbv zeta. split; [vm_compute; reflexivity|]. split; vm_compute; reflexivity.
+Qed.
+
+(** the code before the repair 8cf6420 (the refusal had the cache preference Full): with a status filter that
+    caches every status, a refused request stores its 403 under the request's own path, and the next
+    request without Origin gets it *)
+Lemma denied_cached_v0_witness :
+  let bad := ex_req M_GET (B "/api/x") [(H_ORIGIN, B "https://evil.example")] in
+  let plain := ex_req M_GET (B "/api/x") [] in
+  let st := fst (respond parse_uri is_part_of_origin resolved_path true SP_FULL cache_all_filter CONN_SCHEME ex_cfg (marker_app (cc_handlers ex_cfg)) ([], tt) 0 bad) in
+  fst st <> [] /\
+  snd (respond parse_uri is_part_of_origin resolved_path true SP_FULL cache_all_filter CONN_SCHEME ex_cfg (marker_app (cc_handlers ex_cfg)) st 0 plain)
+  = mkWire 403 [] DENIED [].
+Proof.
+  cbv zeta. split; [vm_compute; discriminate|vm_compute; reflexivity].
 Qed.
